@@ -134,15 +134,23 @@ func callSite() string {
 	n := runtime.Callers(2, pc)
 	frames := runtime.CallersFrames(pc[:n])
 	var chain []string
+	inWriter := false // between the sink (innermost harness frames) and the harness's driver
 	for {
 		f, more := frames.Next()
-		if strings.HasPrefix(f.Function, modPrefix) {
-			name := strings.TrimPrefix(f.Function, modPrefix)
-			if i := strings.LastIndex(name, "/"); i >= 0 {
-				name = name[i+1:]
+		if strings.HasPrefix(f.Function, "main.") {
+			if inWriter {
+				break // reached the harness's shim/driver: frames above are the copy loop
 			}
-			name = strings.NewReplacer("(*", "", ")", "").Replace(name)
-			chain = append(chain, name)
+		} else {
+			inWriter = true
+			if strings.HasPrefix(f.Function, modPrefix) {
+				name := strings.TrimPrefix(f.Function, modPrefix)
+				if i := strings.LastIndex(name, "/"); i >= 0 {
+					name = name[i+1:]
+				}
+				name = strings.NewReplacer("(*", "", ")", "").Replace(name)
+				chain = append(chain, name)
+			}
 		}
 		if !more {
 			break
